@@ -438,7 +438,14 @@ def register(an):
         if sr is not None and args[1][0] == 'adt':
             rb = range_bounds(an, args[1], sr[3], frame, st)
             if rb and rb[0] is not None and rb[1] is not None:
-                return mk_option(('sref', sr[1], sr[2] + rb[0], rb[1] - rb[0]), None)
+                sub = ('sref', sr[1], sr[2] + rb[0], rb[1] - rb[0])
+                ok1 = st.prove_cmp('Le', rb[0], rb[1])
+                ok2 = st.prove_cmp('Le', rb[1], sr[3])
+                if ok1 and ok2:
+                    return mk_some(sub)
+                # Some exactly when start <= end <= len: those facts hold whenever the result is Some
+                v = mk_option(sub, frozenset([0, 1]))
+                return v + (('guard', {1: frozenset([rb[0] - rb[1], rb[1] - sr[3]])}),)
         return None
 
     @model('core::slice::<impl [T]>::first', 'core::slice::<impl [T]>::last')
